@@ -186,6 +186,8 @@ def save_replay(pid, job, sig):
 def make_jobs(pid, prop, tier, seed_base, bins, bdir, only=None):
     jobs = []
     known = ",".join(e["signature"] for e in known_findings(pid) if e.get("status") == "known")
+    if os.environ.get("VERIF_KNOWN_EXTRA"):  # development aid only: continue the search behind a not-yet-recorded finding
+        known = ",".join(x for x in [known, os.environ["VERIF_KNOWN_EXTRA"]] if x)
     for unit in prop["units"]:
         for t in unit["tests"]:
             if only and only not in unit["name"] and only not in t["run"]:
